@@ -599,6 +599,9 @@ class StorageBackend:
         if not rechunk:
             yield chunk
         else:
+            if executor is not None:
+                # We have to look at the data to split it
+                chunk = chunk.result()
             split_indices = strax.Rechunker.get_splits(
                 chunk.data, source_size_mb * 1e6, strax.DEFAULT_CHUNK_SPLIT_NS
             )
